@@ -4,6 +4,7 @@ import (
 	"encoding/json"
 	"fmt"
 	"go/ast"
+	"go/token"
 	"math/rand"
 	"reflect"
 	"sort"
@@ -403,8 +404,88 @@ func runC08(r *Report, rng *rand.Rand, thorough bool) {
 			}
 		}
 	}
+	// ---- how named types are declared: alias (type X = T) or defined type (type X T), under the type-alias switches
+	{
+		aliasDoc, _ := json.Marshal(map[string]any{"openapi": "3.0.3", "info": map[string]any{"title": "c", "version": "1"},
+			"paths": map[string]any{"/things": map[string]any{"post": map[string]any{"operationId": "postThings",
+				"requestBody": map[string]any{"content": map[string]any{"application/json": map[string]any{"schema": map[string]any{"type": "array", "items": map[string]any{"type": "integer", "format": "int64"}}}}},
+				"responses":   map[string]any{"204": map[string]any{"description": "d"}}}}},
+			"components": map[string]any{"schemas": map[string]any{
+				"Item":     map[string]any{"type": "object", "properties": map[string]any{"a": map[string]any{"type": "string"}}},
+				"Items":    map[string]any{"type": "array", "items": map[string]any{"$ref": "#/components/schemas/Item"}},
+				"Names":    map[string]any{"type": "array", "items": map[string]any{"type": "string"}},
+				"Count":    map[string]any{"type": "integer"},
+				"Label":    map[string]any{"type": "string"},
+				"Ratio":    map[string]any{"type": "number", "format": "double"},
+				"Flag":     map[string]any{"type": "boolean"},
+				"ItemsRef": map[string]any{"$ref": "#/components/schemas/Items"},
+				"Colour":   map[string]any{"type": "string", "enum": []string{"red", "blue"}},
+			}}})
+		type decl struct {
+			alias bool
+			rhs   string
+		}
+		declsOf := func(cfg codegen.Configuration) (map[string]decl, error) {
+			cfg.PackageName = "gen"
+			cfg.Generate = codegen.GenerateOptions{Models: true}
+			cfg.OutputOptions.SkipPrune = true
+			code, err := generate(aliasDoc, cfg)
+			if err != nil {
+				return nil, err
+			}
+			p, err := parseGo(code)
+			if err != nil {
+				return nil, err
+			}
+			out := map[string]decl{}
+			for _, d := range p.file.Decls {
+				if gd, ok := d.(*ast.GenDecl); ok && gd.Tok == token.TYPE {
+					for _, sp := range gd.Specs {
+						ts := sp.(*ast.TypeSpec)
+						out[ts.Name.Name] = decl{ts.Assign != token.NoPos, nodeSrc(p.fset, ts.Type)}
+					}
+				}
+			}
+			return out, nil
+		}
+		rhs := map[string]string{"Items": "[]Item", "Names": "[]string", "Count": "int", "Label": "string", "Ratio": "float64", "Flag": "bool", "ItemsRef": "Items", "Colour": "string", "PostThingsJSONBody": "[]int64"}
+		arrays := map[string]bool{"Items": true, "Names": true, "PostThingsJSONBody": true}
+		sets := []struct {
+			name  string
+			tune  func(*codegen.Configuration)
+			alias func(n string) bool
+		}{
+			{"default", func(*codegen.Configuration) {}, func(n string) bool { return n != "Colour" && n != "Item" }},
+			{"disable-type-aliases-for-type=[array]", func(c *codegen.Configuration) { c.OutputOptions.DisableTypeAliasesForType = []string{"array"} },
+				func(n string) bool { return n != "Colour" && n != "Item" && !arrays[n] }},
+			{"old-aliasing", func(c *codegen.Configuration) { c.Compatibility.OldAliasing = true }, func(n string) bool { return false }},
+		}
+		for _, st := range sets {
+			var cfg codegen.Configuration
+			st.tune(&cfg)
+			ds, err := declsOf(cfg)
+			if err != nil {
+				r.Violate("type_alias_switch_generate_error/"+st.name, err.Error(), nil)
+				continue
+			}
+			for n, want := range rhs {
+				r.Count("type-alias-switch/"+st.name+"/"+n, st.name != "default")
+				d, ok := ds[n]
+				if !ok {
+					r.Violate("type_alias_switch/"+st.name, fmt.Sprintf("%s: type %s is not declared", st.name, n), nil)
+					continue
+				}
+				if d.rhs != want || d.alias != st.alias(n) {
+					r.Violate("type_alias_switch/"+st.name, fmt.Sprintf("%s: type %s is declared as %s %s (alias: %v), documentation says %s (alias: %v)", st.name, n, n, d.rhs, d.alias, want, st.alias(n)), map[string]any{"option": st.name, "type": n})
+				}
+			}
+			if d, ok := ds["Item"]; !ok || d.alias || !strings.HasPrefix(d.rhs, "struct") {
+				r.Violate("type_alias_switch/"+st.name, fmt.Sprintf("%s: object schema Item must stay a defined struct type", st.name), nil)
+			}
+		}
+	}
 	fcases.WriteTo(r)
 	tcases.WriteTo(r)
 	r.Exhaustive = true
-	r.Rule = "exhaustive: every cell of required x nullable x readOnly x writeOnly x x-go-type-skip-optional-pointer {absent,true,false} x x-omitempty {absent,true,false} x x-go-json-ignore {absent,true,false} (432 cells) x disable-required-readonly-as-pointer x nullable-type (4 option sets) generated as one struct per option set, every field's type wrapper and json tag read back with go/parser and compared with the model in Coq and, for extension-free cells, with the documented rules; every (type, format) pair over 4 types x 23 formats incl. unknown ones vs the model's table and the documented rows; arrays / maps / free-form objects / $ref; x-go-name (CamelCase, snake_case and lowerCamel values), x-go-type-skip-optional-pointer through a reference / an allOf wrapper / as false on format json, x-go-type(+import), x-oapi-codegen-extra-tags, x-order, x-deprecated-reason must change exactly their own component (compared on the AST); non-trivial = a cell with an extension or option"
+	r.Rule = "exhaustive: every cell of required x nullable x readOnly x writeOnly x x-go-type-skip-optional-pointer {absent,true,false} x x-omitempty {absent,true,false} x x-go-json-ignore {absent,true,false} (432 cells) x disable-required-readonly-as-pointer x nullable-type (4 option sets) generated as one struct per option set, every field's type wrapper and json tag read back with go/parser and compared with the model in Coq and, for extension-free cells, with the documented rules; every (type, format) pair over 4 types x 23 formats incl. unknown ones vs the model's table and the documented rows; arrays / maps / free-form objects / $ref; x-go-name (CamelCase, snake_case and lowerCamel values), x-go-type-skip-optional-pointer through a reference / an allOf wrapper / as false on format json, x-go-type(+import), x-oapi-codegen-extra-tags, x-order, x-deprecated-reason must change exactly their own component (compared on the AST); the type-alias switches (default, disable-type-aliases-for-type: [array], old-aliasing) over named array / primitive / $ref / enum / object types and an inline array request body: alias or defined type and the underlying type of every declaration; non-trivial = a cell with an extension or option"
 }
